@@ -7,6 +7,13 @@ TRUST = ("trusted base: go/types + go/ssa (x/tools v0.50.0), goyacc v0.29.0's LA
          "interface calls that leave the module (Entry, plugins) are opaque")
 
 CHECKS = {
+    "C01": dict(
+        cat="other",
+        text=("Decides per-instruction and per-conversion necessary conditions of XPath 1.0 scalar semantics from the source: each operator production is traced through its grammar action to the builder method, whose SSA/AST must apply the XPath operator to (left,right) in stack order; the six comparison comparators are evaluated as truth tables over the finite set of orderings of two doubles {<,=,>,NaN left,NaN right,both}; the operand type-selection order of = and != and the numeric rule for relational operators, the empty node-set rule and existential node-set comparison; boolean/number/string conversion special cases (incl. NaN, signed zero, infinities); the function table against the section 4 signatures with three-way agreement table/spec/body and the defining stdlib operation per function; and that no over-accepting Go API (ParseFloat, %v, byte lengths) sits on a conversion path. It does not compute values."),
+        ref="DESIGN.md §4 C01",
+        technique="grammar-action tracing + SSA operand-order matching + finite-domain (ordering) truth-table evaluation of comparator closures + table/signature comparison + API-language call-site rule",
+        note="Not decided: numeric results beyond ordering/class level, string results on particular strings, data-tree supplied values, nesting. " + TRUST,
+    ),
     "C09": dict(
         cat="other",
         text=("Exhaustive comparison of the tables the accepted statement language is made of with RFC 6020: every cell of the substatement table for every RFC parent and child keyword (presence, min, max), the keyword table, the statement-to-argument-class dispatch and the closed word sets of status/ordered-by/deviate/yang-version, the section sets and rank logic of checkModule, strict revision ordering, the three tests of checkCardinality and its skip set, that stmt() checks each node; plus two whole-program rules: no argument parser (or anything it calls) uses a stdlib recogniser accepting a strict superset of the ABNF, and no map update can reach the shared table. Tables are finite, so the comparison covers every (parent, child, multiplicity) triple, which no sampled test does."),
@@ -83,7 +90,7 @@ def main():
 
 
 NA = {}
-SOURCE_COMMITS = ["e91d74a fix: reject invalid UTF-8 inside literals and QName local parts", "ad0dbf5 fix: CreateProgram no longer panics when the error position underflows", "f5b2578 fix: a submodule may have at most one organization statement", "7be1c78 fix: spell the yin-element keyword correctly", "9e6f860 fix: boolean arguments accept only true and false", "779e276 fix: integer arguments are decimal only", "b95096a fix: identifiers are ASCII as the YANG ABNF requires", "2221591 fix: NewFakeNodeByType no longer writes into the shared cardinality table"]
+SOURCE_COMMITS = ["e91d74a fix: reject invalid UTF-8 inside literals and QName local parts", "ad0dbf5 fix: CreateProgram no longer panics when the error position underflows", "f5b2578 fix: a submodule may have at most one organization statement", "7be1c78 fix: spell the yin-element keyword correctly", "9e6f860 fix: boolean arguments accept only true and false", "779e276 fix: integer arguments are decimal only", "b95096a fix: identifiers are ASCII as the YANG ABNF requires", "2221591 fix: NewFakeNodeByType no longer writes into the shared cardinality table", "53dc864 fix: div follows IEEE 754 for a zero denominator", "ea66e69 fix: boolean() of NaN is false", "588031e fix: round() rounds ties towards positive infinity", "362e2bb fix: string() of a number never uses exponent notation", "9ac8c0a fix: string-length() and substring() count characters, not bytes"]
 
 if __name__ == "__main__":
     main()
